@@ -52,7 +52,7 @@ class Crash(Exception):
     pass
 
 
-def _mk_truthy(subject: Term, holder: str, heap: str, atoms: Dict[str, bool]):
+def _mk_truthy(subject: Term, holder: str, heap: str, atoms: Dict[str, bool], free: Optional[Dict[Term, bool]] = None, collect: Optional[set] = None):
     cur = ("attr", subject, holder)
     hp = ("attr", subject, heap)
 
@@ -117,6 +117,18 @@ def _mk_truthy(subject: Term, holder: str, heap: str, atoms: Dict[str, bool]):
         o = outcome(t)
         if o is not None:
             return o != frozenset(["none"])
+        # a condition that is neither about the holder nor about the heap: a free atom
+        if t[0] in ("and", "or", "not", "const"):
+            return None
+        leaf, pol = boolfn.canon_leaf(t)
+        if leaf != t:
+            v = truthy(leaf)
+            return None if v is None else (v == pol)
+        if collect is not None:
+            collect.add(leaf)
+            return False
+        if free is not None and leaf in free:
+            return free[leaf]
         return None
 
     return outcome, ev
@@ -127,10 +139,30 @@ def pending_table(elems, subject: Term, holder: str, heap: str, unwrap) -> Tuple
     that enter the bound through `elems` (already filtered to the ones about `subject`).
     `unwrap(term)` strips the arithmetic around the pending step (+ distance, .time, - 1)."""
     table: Dict[Tuple[bool, bool], Set[str]] = {}
+    # conditions that are neither about the holder nor about the heap are free atoms: the
+    # requirement must hold for every value of them
+    collect: set = set()
     for C in (False, True):
         for H in (False, True):
+            outcome, ev = _mk_truthy(subject, holder, heap, {"C": C, "H": H}, None, collect)
+            try:
+                for term, guards in elems:
+                    for g in guards:
+                        ev(g[1])
+                    outcome(unwrap(term))
+            except (Crash, boolfn.NotBoolean):
+                pass
+    free_leaves = sorted(collect, key=repr)
+    if len(free_leaves) > 4:
+        return None, "too many unrelated conditions in the pending-step expression"
+    import itertools
+    for C in (False, True):
+        for H in (False, True):
+          merged: Optional[Set[str]] = None
+          for vals in itertools.product([False, True], repeat=len(free_leaves)):
+            free = dict(zip(free_leaves, vals))
             atoms = {"C": C, "H": H}
-            outcome, ev = _mk_truthy(subject, holder, heap, atoms)
+            outcome, ev = _mk_truthy(subject, holder, heap, atoms, free)
             present: Set[str] = set()
             try:
                 for term, guards in elems:
@@ -147,7 +179,18 @@ def pending_table(elems, subject: Term, holder: str, heap: str, unwrap) -> Tuple
                 present = {"crash:" + str(e)}
             except boolfn.NotBoolean as e:
                 return None, f"guard not understood: {e}"
-            table[(C, H)] = present
+            if free_leaves:
+                tag = ", ".join(("" if v else "not ") + T.show(l) for l, v in free.items())
+                # keep the weakest case: what is guaranteed for every value of the free atoms
+                if merged is None:
+                    merged = set(present)
+                    worst = tag
+                else:
+                    crashes = {p for p in merged | present if p.startswith("crash:")}
+                    merged = (merged & present) | crashes
+            else:
+                merged = present
+          table[(C, H)] = merged if merged is not None else set()
     return table, ""
 
 
